@@ -108,6 +108,9 @@ TWork(w) ==
   \* the following call must make progress (a change of mind does not count: the block
   \* named a stream that was not what kept it from working)
   /\ Chk((~envSince /\ lastW # NoW /\ SatisfiedWait(lastW)) => Moved(w), "satisfied_wait")
+  \* a block whose eof() was true after its previous call may be retired by a runner (MTGraph
+  \* does so after a wait): it must have nothing left to deliver
+  /\ Chk((lastW # NoW /\ lastW.eof /\ "flush" \notin DOMAIN w) => \A j \in 1 .. Len(w.produced) : w.produced[j] = 0, "eof_premature")
   /\ Chk(Flag(hdr, "sync") => SyncLaw(w), "synclaw")
   \* C16: an infinite source never reports EOF
   /\ Chk(Flag(hdr, "infinite") => w.verdict.kind # "eof", "eof_infinite")
@@ -247,7 +250,9 @@ Final(e) ==
                \/ /\ lastW.verdict.kind = "wait" /\ lastW.verdict.side = "in"
                   /\ closedIn[lastW.verdict.idx]
                \* WaitForFunc names no stream: both runners then ask the block's eof()
-               \/ lastW.verdict.kind = "waitfunc" /\ lastW.eof, "close_verdict")
+               \/ lastW.verdict.kind = "waitfunc" /\ lastW.eof
+               \* an error return ends the run on both runners (C07): nothing is left to retire
+               \/ lastW.verdict.kind = "err" /\ Flag(hdr, "allow_err"), "close_verdict")
   /\ IF hdr.mode = "ref"
      THEN refOut' = out /\ refTags' = otags /\ haveRef' = TRUE
      ELSE /\ Chk((haveRef /\ ~Flag(hdr, "partial")) => out = refOut, "final_out")
